@@ -1,6 +1,7 @@
 package props
 
 import (
+	"github.com/freeconf/yang/val"
 	"fmt"
 	"math/big"
 	"regexp"
@@ -579,6 +580,29 @@ func c05membership(c *core.Ctx, rng *core.Rng) {
 			case res == "reject" && t.ok:
 				c.Count("spurious_reject", t.leaf)
 			}
+		}
+	}
+	// values that arrive already typed (a val.Value read from another leaf and handed to SetValue): the format
+	// alone does not make them members of this leaf's type
+	for _, t := range []struct {
+		leaf string
+		v    val.Value
+		ok   bool
+	}{{"e", val.Enum{Id: 1, Label: "one"}, true}, {"e", val.Enum{Id: 9, Label: "mauve"}, false}, {"e", val.Enum{Id: 2, Label: "other-two"}, false},
+		{"el", val.EnumList{{Id: 0, Label: "one"}, {Id: 1, Label: "two"}}, true}, {"el", val.EnumList{{Id: 0, Label: "one"}, {Id: 5, Label: "mauve"}}, false},
+		{"i", val.IdentRef{Label: "d1"}, true}, {"i", val.IdentRef{Label: "other"}, false}, {"i", val.IdentRef{Label: "fern"}, false},
+		{"b", val.Bits{Positions: 1, Labels: []string{"b0"}}, true}} {
+		c.Evaluations++
+		res := c05write(b, store, t.leaf, t.v, "null", "SetValue")
+		c.Count("class", "member-typed-"+t.leaf)
+		desc := fmt.Sprintf("leaf %s typed value %#v via SetValue", t.leaf, t.v)
+		switch {
+		case strings.HasPrefix(res, "PANIC"), strings.HasPrefix(res, "BAD-STORE"):
+			c.Violation(core.Replay{Kind: "property-failure", Class: "member-typed-crash", Summary: desc + ": " + res, Input: desc})
+		case res == "accept" && !t.ok:
+			c.Violation(core.Replay{Kind: "property-failure", Class: "member-typed-" + t.leaf, Summary: desc + ": accepted although not a member of the type; stored " + fmt.Sprintf("%#v", store[t.leaf]), Input: desc})
+		case res == "reject" && t.ok:
+			c.Count("spurious_reject", "typed-"+t.leaf)
 		}
 	}
 	// bits through the model (names)
